@@ -257,6 +257,8 @@ impl Workload {
             job.read_access
         );
 
+        #[cfg(feature = "verif_hooks")]
+        fontdrasil::orchestration::verif::sched("insert", &job.id, Vec::new());
         self.job_count += 1;
         self.count_pending
             .entry(job.id.discriminant())
@@ -376,6 +378,14 @@ impl Workload {
         success: AnyWorkId,
         timing: JobTime,
     ) -> Result<(), Error> {
+        #[cfg(feature = "verif_hooks")]
+        let _verif_scope = {
+            use fontdrasil::orchestration::verif;
+            verif::jitter("before_handle_success", &success);
+            verif::set_actor(format!("hs:{success:?}"));
+            verif::sched("hs_begin", &success, Vec::new());
+            VerifHsScope(success.clone())
+        };
         log::debug!("{success:?} successful");
 
         self.timer.add(timing);
@@ -636,6 +646,20 @@ impl Workload {
                         for id in launchable.iter() {
                             let timing = self.timer.create_timer(id.clone(), nth_wave);
 
+                            #[cfg(feature = "verif_hooks")]
+                            {
+                                // every job already known whose output this job's read access
+                                // (as of launch) matches: the orderings can_run enforced
+                                let job = self.jobs_pending.get(id).unwrap();
+                                let deps = self
+                                    .jobs_pending
+                                    .keys()
+                                    .chain(self.success.iter())
+                                    .filter(|other| *other != id && job.read_access.check(other))
+                                    .map(|other| format!("{other:?}"))
+                                    .collect();
+                                fontdrasil::orchestration::verif::sched("launch", id, deps);
+                            }
                             let job = self.jobs_pending.get_mut(id).unwrap();
                             log::trace!("Start {id:?}");
                             job.running = true;
@@ -698,6 +722,13 @@ impl Workload {
                             // references:
                             // <https://doc.rust-lang.org/nomicon/exception-safety.html#exception-safety>
                             // <https://doc.rust-lang.org/std/panic/trait.UnwindSafe.html>
+                            #[cfg(feature = "verif_hooks")]
+                            {
+                                use fontdrasil::orchestration::verif;
+                                verif::jitter("before_exec", &id);
+                                verif::set_actor(format!("{id:?}"));
+                                verif::sched("begin", &id, Vec::new());
+                            }
                             let result = match std::panic::catch_unwind(AssertUnwindSafe(|| {
                                 work.exec(work_context)
                             })) {
@@ -712,11 +743,20 @@ impl Workload {
                             // before our success result has passed through the channel
                             // At peak times, such as completion of tons of glyphs, the channel seems
                             // to have tens of ms of delay.
+                            #[cfg(feature = "verif_hooks")]
+                            {
+                                use fontdrasil::orchestration::verif;
+                                verif::sched("end", &id, Vec::new());
+                                verif::set_actor("");
+                                verif::jitter("before_counter_decrement", &id);
+                            }
                             if result.is_ok() {
                                 for counter in counters {
                                     counter.fetch_sub(1, Ordering::AcqRel);
                                 }
                             }
+                            #[cfg(feature = "verif_hooks")]
+                            fontdrasil::orchestration::verif::jitter("before_send", &id);
                             let timing = timing.complete();
 
                             if let Err(e) = send.send((id.clone(), result, timing)) {
@@ -945,6 +985,19 @@ impl Workload {
                 .unwrap_or_else(|e| panic!("Failed to handle success for {id:?}: {e}"));
         }
         self.success.difference(&pre_success).cloned().collect()
+    }
+}
+
+/// Marks the end of a `handle_success` call in the verification event log.
+#[cfg(feature = "verif_hooks")]
+struct VerifHsScope(AnyWorkId);
+
+#[cfg(feature = "verif_hooks")]
+impl Drop for VerifHsScope {
+    fn drop(&mut self) {
+        use fontdrasil::orchestration::verif;
+        verif::sched("hs_end", &self.0, Vec::new());
+        verif::set_actor("main");
     }
 }
 
